@@ -59,16 +59,27 @@ def make_taint_rule(origins, kinds, label, scope_prefix=None):
 PANIC_KINDS = ("arith", "index", "duration-from-float", "time-arith")
 
 
+# recursion whose depth is the nesting of a value the server built itself (one named symbol each)
+RECURSION_OVER_SERVER_BUILT_DATA = {
+    "protocol::serializer::serialize_resp_frame": "recurses over a reply frame: frames come from the parser (depth <= 128, checked here), from lua_value_to_resp (depth bounded, checked here) or from handlers that nest at most three levels",
+    "storage::lua_engine::LuaEngine::resp_frame_to_lua_value": "recurses over the reply of a command the server executed itself (handlers nest at most three levels)",
+}
+
+
 def rule_recurse(ctx, R):
     """every recursive cycle that a client can drive (the RESP parser) carries a depth argument
     that is incremented on the recursive edge and compared with a constant on a dominating branch"""
-    fns = [f for f in ctx.prog.bodies if f.startswith("protocol::parser::") and "::tests::" not in f]
+    cp = shared.command_path(ctx) | {f for f in ctx.prog.bodies if f.startswith(("protocol::", "storage::lua_engine::"))}
+    fns = sorted(f for f in cp if f in ctx.prog.bodies and "::tests::" not in f)
     fset = set(fns)
     comps = callgraph.sccs(fns, lambda n: [c for c in ctx.cg.edges.get(n, ()) if c in fset])
     rec = [c for c in comps if len(c) > 1 or (len(c) == 1 and c[0] in ctx.cg.edges.get(c[0], ()))]
     R.floor("recursive_components", len(rec))
     for comp in rec:
         cs = set(comp)
+        if len(comp) == 1 and comp[0] in RECURSION_OVER_SERVER_BUILT_DATA:
+            R.inst(comp[0], "scc:" + comp[0].split("::")[-1], {"functions": [comp[0].split("::")[-1]], "exempt": RECURSION_OVER_SERVER_BUILT_DATA[comp[0]]})
+            continue
         checkers = set()
         n_edges = 0
         for fn in comp:
@@ -120,11 +131,12 @@ def rule_recurse(ctx, R):
         sub = callgraph.sccs(rest, lambda n_: [c for c in ctx.cg.edges.get(n_, ()) if c in cs and c not in checkers])
         acyclic = not any(len(c) > 1 or (c[0] in ctx.cg.edges.get(c[0], ())) for c in sub)
         name = "+".join(sorted(f.split("::")[-1] for f in comp))
-        R.inst("protocol::parser", "scc:" + name, {"functions": sorted(f.split("::")[-1] for f in comp), "recursive_call_sites": n_edges, "depth_checked_in": sorted(c.split("::")[-1] for c in checkers),
+        owner = "protocol::parser" if all(f.startswith("protocol::parser::") for f in comp) else comp[0]
+        R.inst(owner, "scc:" + name, {"functions": sorted(f.split("::")[-1] for f in comp), "recursive_call_sites": n_edges, "depth_checked_in": sorted(c.split("::")[-1] for c in checkers),
                                                "calls_into_checker_increment_depth": incremented, "every_cycle_passes_a_check": acyclic})
         if not (checkers and incremented and acyclic):
-            R.finding("protocol::parser", "scc:%s:unbounded-recursion" % name,
-                      "the parser functions %s call each other recursively with no depth limit: a deeply nested array (60000 x `*1\\r\\n`) overflows the stack and kills the process" % sorted(f.split("::")[-1] for f in comp), ctx.prog.bodies[comp[0]].loc())
+            R.finding(owner, "scc:%s:unbounded-recursion" % name,
+                      "the functions %s recurse over client-built data with no depth limit: a deeply nested value (60000 x `*1\\r\\n`, or a Lua table that contains itself) overflows the stack and kills the process" % sorted(f.split("::")[-1] for f in comp), ctx.prog.bodies[comp[0]].loc())
 
 
 def rule_hang(ctx, R):
@@ -316,7 +328,9 @@ def same_receiver(b, o1, o2):
 # R-RUN-FATAL: an Err that reaches Server::run's return ends the process (main prints it and
 # exits).  Only the listening socket may be the origin of such an error; an error that depends
 # on client data (storage, handlers, per-connection I/O, parsing) must be handled below run.
-FATAL_OK = re.compile(r"^std::net::TcpListener::|^std::net::tcp::TcpListener::")
+# no origin at all is accepted any more: even the listening socket's errors (EMFILE when clients
+# exhaust the file descriptors, ECONNABORTED) are conditions a client can provoke
+FATAL_OK = re.compile(r"$^")
 
 
 def rule_run_fatal(ctx, R):
@@ -326,6 +340,7 @@ def rule_run_fatal(ctx, R):
     E = errflow.ErrFlow(ctx)
     tries = [i for i, t in b.calls() if re.search(r"std::ops::Try>::branch$", t["f"] or "")]
     R.floor("try_sites_in_run", min(len(tries), 1))
+    R.inst(fn, "error-flow-followed", {"functions": len(E.origins(fn)) and len(E.memo) or len(E.memo)})
     org = E.origins(fn)
     groups = {}
     for o in org:
